@@ -32,7 +32,7 @@ RULE = ("case = one of 6 strategies x series of 2..60 points (>= 40% tie-rich in
         " Round-5 classes: a 'threads' kind - batches of 8 recreation requests on different data issued concurrently from 4 threads, each answer bit-identical to its sequential answer."
         " Round-6 classes: RuntimeWarnings on ordinary input are violations (see C04)."
         " Round-7 classes: an equal earlier request on another object whose answer was edited in place before the judged request.")
-REQUIRED_MONITORS = ["threads:rfa", "c05:intervals", "c05:constant_series", "c05:piecewise", "c05:cubic"]
+REQUIRED_MONITORS = ["threads:rfa", "threads:first_use:rfa", "threads:first_use_yields_injected", "c05:intervals", "c05:constant_series", "c05:piecewise", "c05:cubic"]
 ASSUMPTIONS = ["parameters in the documented ranges; explicit a clamped to >= 2 as documented",
                "monotonicity for exponent < 0.132954 is a recorded known finding (K1), not asserted"]
 NSHARDS = 16
@@ -257,13 +257,13 @@ def run_case(ctx, kind_, idx):
 
 
 def run(ctx, spec):
-    if spec["kind"] == "threads":      # concurrent independent requests vs their sequential answers
+    if spec["kind"] in ("threads", "threads_cold"):      # concurrent independent requests vs their sequential answers
         return _jobs.run(ctx, spec, ["rfa"])
     for idx in range(spec["start"], spec["start"] + spec["count"]):
         run_case(ctx, spec["kind"], idx)
 
 
 def replay(ctx, case):
-    if case["kind"] == "threads":
-        return _jobs.run_case(ctx, ["rfa"], case["idx"])
+    if case["kind"] in ("threads", "threads_cold"):
+        return _jobs.run_case(ctx, ["rfa"], case["idx"], cold=case["kind"] == "threads_cold")
     run_case(ctx, case["kind"], case["idx"])
